@@ -3,7 +3,7 @@
    The signature table is a JSON array of [public key text, server, key id] triples for which
    VerifyJSON succeeds on the invite's signed object (computed by the harness with real keys);
    it instantiates the sig_ok oracle of Auth/Abs.v. *)
-From Verif Require Import Lib.Bytes Json.Ast Json.Parse Auth.Types Auth.Versions Auth.Abs Auth.Decide Auth.Model Auth.AllowedSpec Auth.Departures.
+From Verif Require Import Lib.Bytes Json.Ast Json.Parse Auth.Types Auth.Versions Auth.Abs Auth.Decide Auth.Model Auth.AllowedSpec Auth.Departures Auth.SpecRead.
 Open Scope N_scope.
 
 Definition sig_table (j : json) : list (bytes * bytes * bytes) :=
@@ -16,6 +16,17 @@ Definition sig_table (j : json) : list (bytes * bytes * bytes) :=
   | _ => []
   end.
 
+(* the signature argument is either one table (the library's reading) or an object
+   {lib: table, raw: table}: raw lists the triples for which VerifyJSON accepts the signed object
+   of the event as it stands (the specification's reading, Auth/SpecRead.v) *)
+Definition sig_tables (j : json) : list (bytes * bytes * bytes) * list (bytes * bytes * bytes) :=
+  match j with
+  | JObj m =>
+      (match assoc_first (bs "lib") m with Some t => sig_table t | None => [] end,
+       match assoc_first (bs "raw") m with Some t => sig_table t | None => [] end)
+  | _ => (sig_table j, sig_table j)
+  end.
+
 Definition table_oracle (tbl : list (bytes * bytes * bytes)) (pk d k : bytes) : bool :=
   existsb (fun t => match t with (pk', d', k') => bytes_eqb pk pk' && bytes_eqb d d' && bytes_eqb k k' end) tbl.
 
@@ -24,7 +35,20 @@ Definition with_case {A} (args : list bytes)
   match args with
   | ver :: sigs :: ev :: auths =>
       match parse_json sigs, parse_json ev, parse_all auths with
-      | Some s, Some e, Some al => k (table_oracle (sig_table s)) ver e al
+      | Some s, Some e, Some al => k (table_oracle (fst (sig_tables s))) ver e al
+      | _, _, _ => bad
+      end
+  | _ => bad
+  end.
+
+Definition with_case2 {A} (args : list bytes)
+           (k : (bytes -> bytes -> bytes -> bool) -> (bytes -> bytes -> bytes -> bool) ->
+                bytes -> json -> list json -> A) (bad : A) : A :=
+  match args with
+  | ver :: sigs :: ev :: auths =>
+      match parse_json sigs, parse_json ev, parse_all auths with
+      | Some s, Some e, Some al =>
+          k (table_oracle (fst (sig_tables s))) (table_oracle (snd (sig_tables s))) ver e al
       | _, _, _ => bad
       end
   | _ => bad
@@ -48,11 +72,11 @@ Definition prop_allowed (args : list bytes) : bytes :=
   match split_last_arg args with
   | None => bs "badargs"
   | Some (args', impl) =>
-      with_case args'
-        (fun so ver e al =>
+      with_case2 args'
+        (fun so sr ver e al =>
            match spec_flags_of ver, spec_rules_of ver with
            | Some sf, Some sv =>
-               let a := abs so sf e al in
+               let a := abs_spec so sr sf e al in
                let want := decide_spec sv a in
                let got := bytes_eqb impl (bs "ok") in
                if negb (ai_provider_ok a) then bs "ok"   (* NewAuthEvents failed: Allowed was not reached *)
@@ -104,11 +128,11 @@ Definition with_literal (args : list bytes) (k : spec_rules -> auth_input -> Dep
   match split_last_arg args with
   | None => bs "badargs"
   | Some (args', impl) =>
-      with_case args'
-        (fun so ver e al =>
+      with_case2 args'
+        (fun so sr ver e al =>
            match spec_flags_of ver, spec_rules_of ver with
            | Some sf, Some sv =>
-               k sv (abs so sf e al) (extra_of ver e al) (bytes_eqb impl (bs "ok")) impl
+               k sv (abs_spec so sr sf e al) (extra_of ver e al) (bytes_eqb impl (bs "ok")) impl
            | _, _ => bs "FAIL unknown version"
            end)
         (bs "badargs")
